@@ -20,8 +20,26 @@ CHECKS = [
     },
 ]
 
+CHECKS.append({
+    "property_id": "C12",
+    "text": ("Theorem C12_holds (coq/Props/C12.v) over the model of Socket.receive/Socket.send (coq/Model/Sock.v, HEADER_SIZE regenerated "
+             "from const.py): for EVERY well-formed frame (any body length the 16-bit length field allows) and EVERY segmentation of it into "
+             "non-empty chunks (down to one byte; chunks longer than the 256-byte read are read piecewise) receive returns exactly the frame "
+             "(fuel = frame length + 1 is never exhausted: no hang); if the peer closes, times out or errors after ANY strict prefix, however "
+             "segmented, receive terminates with CommError (no hang, no partial frame); send hands every byte to the kernel in order for every "
+             "pattern of positive partial sends, and under ANY send script it terminates, success implies everything was sent, failure is "
+             "CommError with a prefix on the wire. Proved by induction on the chunk list with an accumulated-prefix invariant. The model is tied "
+             "to socket_.py by differential correspondence over scripted fake sockets (all compositions of the first bytes, every first-chunk "
+             "size, peer stop after every prefix, partial-send patterns)."),
+    "note": COMMON_NOTE + " C12: closed under the global context. The kernel socket is an input script (recv returns at most n bytes of what is "
+            "available, b'' after close, or raises socket.error); real TCP, timeouts and the OS are not modelled.",
+    "technique": "Coq proof (induction over segmentations / send scripts with explicit fuel) + model/implementation correspondence on scripted sockets",
+    "design_ref": "DESIGN.md section 7, C12",
+})
+
 _PENDING = "vertical not yet built in this session (see DESIGN.md section 9 staging); decided by Coq proof + correspondence when it lands"
-NOT_APPLICABLE = [{"property_id": f"C{i:02d}", "reason": _PENDING} for i in range(1, 19)]
+_CLAIMED = {c["property_id"] for c in CHECKS}
+NOT_APPLICABLE = [{"property_id": f"C{i:02d}", "reason": _PENDING} for i in range(1, 20) if f"C{i:02d}" not in _CLAIMED]
 
 NOTES = ("Every check: regenerate coq/Gen from /repo, full .vo rebuild of the property's proof cone, Print Assumptions audit, "
          "rebuild of the extracted model, correspondence + property oracle on the implementation, verdict per DESIGN.md section 5.")
